@@ -52,7 +52,12 @@ class Ev:
             return o, M, tmag(o.A)
         if k == 'id':
             scale = e[1]; dt = {'complex': complex, 'float': float}[e[2]]
-            o = ptn.MPO.identity(self.qd, self.L, scale=scale, dtype=dt)
+            if scale == 1 and dt is complex:
+                o = ptn.MPO.identity(self.qd, self.L)         # documented defaults scale = 1, dtype = complex
+            elif dt is complex:
+                o = ptn.MPO.identity(self.qd, self.L, scale=scale)
+            else:
+                o = ptn.MPO.identity(self.qd, self.L, scale=scale, dtype=dt)
             M = scale * np.identity(len(self.qd) ** self.L)
             return o, M, np.linalg.norm(M)
         a, Ma, ma = self.op(e[1]); b, Mb, mb = self.op(e[2])
